@@ -10,11 +10,24 @@ import manifest_data as D  # noqa
 
 root = os.path.dirname(here)
 ids = [json.loads(l)["id"] for l in open(os.path.join(root, "properties.jsonl"))]
+import importlib
+sys.path.insert(0, root)
+CH = dict(D.CHECKS)
+for pid in ids:
+    f = os.path.join(root, "vp", "props", pid.lower() + ".py")
+    if os.path.exists(f):
+        try:
+            mod = importlib.import_module("vp.props." + pid.lower())
+        except Exception as ex:  # a module that does not import is not claimed
+            print("skip %s: %s" % (pid, ex))
+            continue
+        if getattr(mod, "MANIFEST", None):
+            CH[pid] = mod.MANIFEST
 checks = []
 for pid in ids:
-    if pid not in D.CHECKS:
+    if pid not in CH:
         continue
-    c = D.CHECKS[pid]
+    c = CH[pid]
     checks.append({
         "property_id": pid,
         "quick_cmd": "./check %s --tier quick" % pid,
@@ -27,7 +40,7 @@ for pid in ids:
         "technique": c["technique"],
     })
 na = [{"property_id": pid, "reason": D.NOT_APPLICABLE.get(pid, "check not built yet (work in progress; DESIGN.md section 11)")}
-      for pid in ids if pid not in D.CHECKS]
+      for pid in ids if pid not in CH]
 m = {
     "version": 1,
     "setup_cmd": "./setup.sh",
